@@ -292,3 +292,85 @@ theorem feed_kids (hc : CntOk o) (kids : List (Str × Tree)) (budget : Nat) (st 
 end
 
 end PdshVerif.Pcp
+
+namespace PdshVerif.Pcp
+open PdshVerif.Gen
+
+/-! ## the sender's walk produces `treeBytes` -/
+
+/-- the name `pcp_sendfile` puts into the record for a list entry -/
+def sentName (so : SOpts) (path : Str) (user : Bool) : Str :=
+  xbasename (if so.reverse && user then path ++ cDot :: so.host else path)
+
+theorem xbasename_join (path n : Str) (hn : cSlash ∉ n) : xbasename (path ++ cSlash :: n) = n := by
+  unfold xbasename
+  rw [splitSlash_append, splitSlash_noslash n hn]
+  simp
+
+theorem sentinel_noslash : cSlash ∉ sentinelName := by decide
+
+theorem join_ne_sentinel (path n : Str) : path ++ cSlash :: n ≠ sentinelName := by
+  intro e
+  apply sentinel_noslash
+  rw [← e]
+  simp
+
+mutual
+/-- names below the top level contain no `/` (they are `d_name`s) -/
+def KidNamesOk : Tree → Prop
+  | .file .. => True
+  | .dir _ _ _ kids => KidListOk kids
+def KidListOk : List (Str × Tree) → Prop
+  | [] => True
+  | (n, k) :: r => cSlash ∉ n ∧ KidNamesOk k ∧ KidListOk r
+end
+
+mutual
+theorem send_tree (so : SOpts) (path : Str) (user : Bool) (t : Tree) (hp : path ≠ sentinelName)
+    (hk : KidNamesOk t) :
+    (expandTree path user t).flatMap (sendEntry so) = treeBytes so.preserve (sentName so path user) t := by
+  cases t with
+  | file m t a d =>
+    simp only [expandTree, List.flatMap_cons, List.flatMap_nil, List.append_nil, sendEntry, hp, ↓reduceIte,
+      treeBytes, sentName, Bool.false_eq_true]
+  | dir m t a kids =>
+    simp only [KidNamesOk] at hk
+    simp only [expandTree, List.flatMap_cons, List.flatMap_append, List.flatMap_nil, List.append_nil, sendEntry,
+      hp, ↓reduceIte, treeBytes, sentName]
+    rw [send_kids so path kids hk]
+    simp only [List.append_assoc]
+theorem send_kids (so : SOpts) (path : Str) (kids : List (Str × Tree)) (hk : KidListOk kids) :
+    (expandKids path kids).flatMap (sendEntry so) = kidsBytes so.preserve kids := by
+  cases kids with
+  | nil => rfl
+  | cons nk r =>
+    obtain ⟨n, k⟩ := nk
+    simp only [KidListOk] at hk
+    obtain ⟨hn, hkk, hkr⟩ := hk
+    simp only [expandKids, List.flatMap_append, kidsBytes]
+    rw [send_tree so (path ++ cSlash :: n) false k (join_ne_sentinel _ _) hkk, send_kids so path r hkr]
+    simp only [sentName, Bool.and_false, Bool.false_eq_true, ↓reduceIte, xbasename_join path n hn]
+end
+
+/-- the sources under the names they are sent with -/
+def namedSrcs (so : SOpts) : List (Str × Tree) → List (Str × Tree)
+  | [] => []
+  | (path, t) :: r => (sentName so path true, t) :: namedSrcs so r
+
+/-- what the user may name: not the sentinel, trees whose entry names have no `/` -/
+def SrcsOk : List (Str × Tree) → Prop
+  | [] => True
+  | (path, t) :: r => path ≠ sentinelName ∧ KidNamesOk t ∧ SrcsOk r
+
+theorem send_eq (so : SOpts) (srcs : List (Str × Tree)) (h : SrcsOk srcs) :
+    send so srcs = kidsBytes so.preserve (namedSrcs so srcs) := by
+  unfold send
+  induction srcs with
+  | nil => rfl
+  | cons pt r ih =>
+    obtain ⟨path, t⟩ := pt
+    simp only [SrcsOk] at h
+    simp only [expandAll, List.flatMap_append, namedSrcs, kidsBytes]
+    rw [send_tree so path true t h.1 h.2.1, ih h.2.2]
+
+end PdshVerif.Pcp
